@@ -1,7 +1,7 @@
 #!/bin/sh
 # usage: tools_try_mutant.sh <patch.diff> <prop> [tier]   -- apply a seeded change to /repo, run the check, undo
 P=$1; PROP=$2; TIER=${3:-quick}
-git -C /repo apply "$P" || exit 9
+git -C /repo apply "$P" 2>/dev/null || git -C /repo apply -3 "$P" || exit 9; git -C /repo reset -q
 cd /verif && timeout 3600 ./vcheck $PROP --tier $TIER; rc=$?
-git -C /repo checkout -- .
+git -C /repo reset -q; git -C /repo checkout -- .
 echo "MUTANT $(basename $(dirname $P)) on $PROP/$TIER -> rc=$rc"
